@@ -8,9 +8,9 @@ def plan(tier, seed):
     if tier == "thorough":
         hs.append(H("pf::p3_lossy_f32_5", "", "arbitrary bytes len<=5"))
     return {
-        "kani": [KGroup("D", hs, timeout=1500 if tier == "quick" else 7200, jobs=3, mem_gb=10, stubbing=True)],
+        "kani": [KGroup("D", hs, timeout=800 if tier == "quick" else 7200, jobs=3, mem_gb=14, stubbing=True)],
         "smt": {"features": (), "workers": 8,
-                "kernels": lemire_rows("f64", tier, seed, "lemire_lossy_rel", 3) + lemire_rows("f32", tier, seed, "lemire_lossy_rel", 2)
+                "kernels": lemire_rows("f64", tier, seed, "lemire_lossy_rel", 2, small=True) + lemire_rows("f32", tier, seed, "lemire_lossy_rel", 1, small=True)
                 + (["lemire_wrap_f64@exponent=5", "lemire_wrap_f32@exponent=0"] if tier == "quick" else
                    ["lemire_wrap_f64@exponent=%d" % q for q in (-20, -5, 0, 5, 22, 27, 28, 55, 100, 300)] + ["lemire_wrap_f32@exponent=%d" % q for q in (-20, 0, 10, 30)])},
         "functions_encoded": ["lexical_core::parse_with_options / parse_partial_with_options (lossy)", "lexical_parse_float::lemire::compute_float (lossy vs exact, MIR -> SMT)", "lexical_parse_float::lemire::lemire (truncated-digits second pass: with lossy never the error marker)"],
